@@ -292,7 +292,7 @@ Record st := {
   threads : nat -> option thread;
   next_tid : nat;
   sent_log : list event;                  (* ghost: order of sends on inEvents *)
-  done_log : list (N * nat * bool);       (* ghost: (publisher, sync, async?) in order of completion *)
+  done_log : list (N * nat * bool * bool);  (* ghost: (publisher, sync, async?, produces an event?) in order of completion *)
   latest_log : list (N * N * nat)         (* ghost: (publisher, cid, sync) in order of setLatestSync *)
 }.
 
@@ -335,7 +335,7 @@ Definition w_co (s : st) c :=
   {| co := c; latest := latest s; sync_mu := sync_mu s; async_mu := async_mu s; exp_closed := exp_closed s;
      watch_done := watch_done s; stage := stage s; threads := threads s; next_tid := next_tid s;
      sent_log := sent_log s; done_log := done_log s; latest_log := latest_log s |}.
-Definition w_done (s : st) (d : N * nat * bool) :=
+Definition w_done (s : st) (d : N * nat * bool * bool) :=
   {| co := co s; latest := latest s; sync_mu := sync_mu s; async_mu := async_mu s; exp_closed := exp_closed s;
      watch_done := watch_done s; stage := stage s; threads := threads s; next_tid := next_tid s;
      sent_log := sent_log s; done_log := (done_log s ++ [d])%list; latest_log := latest_log s |}.
@@ -372,7 +372,28 @@ Definition mk_event (t : nat) (k : kind) (n : N) (err : bool) : event :=
 Definition out_cnt (th : thread) : N := match t_out th with Some (_, n) => n | None => 0 end.
 Definition out_ok (th : thread) : bool := match t_out th with Some (ok, _) => ok | None => false end.
 
-Definition step_thread (s : st) (t : nat) (th : thread) (choice : nat) : option st :=
+(* does this sync produce a notification?  ok and updating, or failed and announce-triggered *)
+Definition sends (th : thread) : bool :=
+  match t_out th with
+  | Some (true, _) => k_upd (t_kind th)
+  | Some (false, _) => k_async (t_kind th)
+  | None => false
+  end.
+
+(* where a sync goes once handle has returned and (fx) / or (code as found) the
+   per-publisher sync lock has been released *)
+Definition after_handle (th : thread) : pc :=
+  match t_out th with
+  | Some (true, _) => if k_upd (t_kind th) then PSetLatest else PWgDone
+  | Some (false, _) => if k_async (t_kind th) then PSendErr else PWgDone
+  | None => PWgDone
+  end.
+
+(* fx = false: the code as found: handle takes and releases syncMutex, the latest-sync update
+               and the event follow the release;
+   fx = true : with pending/C08-fix-sync-lock-window: the callers of handle hold syncMutex
+               until the latest-sync update and the event have been made. *)
+Definition step_thread (fx : bool) (s : st) (t : nat) (th : thread) (choice : nat) : option st :=
   let k := t_kind th in
   let p := k_pub k in
   match t_pc th with
@@ -382,7 +403,7 @@ Definition step_thread (s : st) (t : nat) (th : thread) (choice : nat) : option 
     | Some _ => None
     end
   | PCheck =>
-    (* errors, nothing to do, cancelled context: return without touching handle *)
+    (* errors, nothing to do, cancelled context: return without a sync *)
     match choice with O => goto s t th PLock | _ => goto s t th PWgDone end
   | PLock =>
     match sync_mu s p with
@@ -390,25 +411,28 @@ Definition step_thread (s : st) (t : nat) (th : thread) (choice : nat) : option 
     | Some _ => None
     end
   | PRun =>
-    let o := match choice with O => (false, 0) | S n => (true, N.of_nat n) end in
-    Some (w_threads s (updt (threads s) t (set_out th PUnlock o)))
+    match choice with
+    | 1%nat => goto s t th PUnlock            (* nothing to do (stop = head), no head, error before handle *)
+    | _ =>
+      let o := match choice with O => (false, 0) | S n => (true, N.of_nat (Nat.pred n)) end in
+      let th' := set_out th PUnlock o in
+      let s1 := w_done s (p, t, k_async k, sends th') in
+      Some (w_threads s1 (updt (threads s) t
+              (if fx then set_pc th' (match after_handle th' with PWgDone => PUnlock | q => q end) else th')))
+    end
   | PUnlock =>
-    let s1 := w_done (w_sync_mu s (updN (sync_mu s) p None)) (p, t, k_async k) in
-    if out_ok th then
-      if k_upd k then goto s1 t th PSetLatest else goto s1 t th PWgDone
-    else
-      if k_async k then goto s1 t th PSendErr else goto s1 t th PWgDone
+    goto (w_sync_mu s (updN (sync_mu s) p None)) t th (if fx then PWgDone else after_handle th)
   | PSetLatest => goto (w_latest s p (k_cid k) t) t th PSend
   | PSend =>
     let e := mk_event t k (out_cnt th) false in
     match cstep (co s) (LSend e) with
-    | Some c => Some (w_threads (w_sent s c e) (updt (threads s) t (set_ev th PWgDone e)))
+    | Some c => Some (w_threads (w_sent s c e) (updt (threads s) t (set_ev th (if fx then PUnlock else PWgDone) e)))
     | None => None
     end
   | PSendErr =>
     let e := mk_event t k 0 true in
     match cstep (co s) (LSend e) with
-    | Some c => Some (w_threads (w_sent s c e) (updt (threads s) t (set_ev th PWgDone e)))
+    | Some c => Some (w_threads (w_sent s c e) (updt (threads s) t (set_ev th (if fx then PUnlock else PWgDone) e)))
     | None => None
     end
   | PWgDone => if k_async k then goto s t th PUnlockA else goto s t th PFin
@@ -438,7 +462,7 @@ Definition closer_step (s : st) : option st :=
 Definition core_label_ok (lb : clabel) : bool :=
   match lb with LSend _ | LCloseIn | LClosing => false | _ => true end.
 
-Definition stepf (s : st) (l : label) : option st :=
+Definition stepf (fx : bool) (s : st) (l : label) : option st :=
   match l with
   | Spawn k =>
     if k_async k && watch_done s then None else
@@ -448,7 +472,7 @@ Definition stepf (s : st) (l : label) : option st :=
             sent_log := sent_log s; done_log := done_log s; latest_log := latest_log s |}
   | Step t choice =>
     match threads s t with
-    | Some th => step_thread s t th choice
+    | Some th => step_thread fx s t th choice
     | None => None
     end
   | Closer => closer_step s
@@ -463,13 +487,13 @@ Definition init : st :=
      exp_closed := false; watch_done := false; stage := 0; threads := fun _ => None; next_tid := 0;
      sent_log := []; done_log := []; latest_log := [] |}.
 
-Definition reach (s : st) : Prop := reachable stepf init s.
+Definition reach (fx : bool) (s : st) : Prop := reachable (stepf fx) init s.
 
-(* orders per publisher *)
-Definition sent_of (async : bool) (p : N) (s : st) : list nat :=
-  map e_sid (filter (fun e => Bool.eqb (e_async e) async && N.eqb (e_pub e) p) (sent_log s)).
-Definition done_of (async : bool) (p : N) (s : st) : list nat :=
-  map (fun d => snd (fst d)) (filter (fun d => Bool.eqb (snd d) async && N.eqb (fst (fst d)) p) (done_log s)).
+(* orders per publisher: events sent, and completed syncs that produce an event *)
+Definition sent_of (p : N) (s : st) : list nat :=
+  map e_sid (filter (fun e => N.eqb (e_pub e) p) (sent_log s)).
+Definition done_of (p : N) (s : st) : list nat :=
+  map (fun d => snd (fst (fst d))) (filter (fun d => snd d && N.eqb (fst (fst (fst d))) p) (done_log s)).
 
 Fixpoint prefixb (a b : list nat) : bool :=
   match a, b with
@@ -544,74 +568,128 @@ Definition valid_order (c : list nat * list nat) : bool := prefixb (snd c) (fst 
 (* 4. The skeletons this model was written against                     *)
 Open Scope string_scope.
 
+(* Projection used for the functions that other pending repairs also touch
+   (SyncAdChain, syncEntries, asyncSyncAdChain, watch, handle): keep every
+   synchronisation operation and the calls named by `keep`, drop other calls,
+   jumps, and control structure that becomes empty.  The functions only this
+   property's repairs touch are compared in full (skel_same_shape). *)
+Fixpoint projop (keep : string -> bool) (a : sop) {struct a} : list sop :=
+  let fix pl (x : list sop) {struct x} : list sop :=
+    match x with [] => [] | b :: r => (projop keep b ++ pl r)%list end in
+  let fix pll (x : list (list sop)) {struct x} : list (list sop) :=
+    match x with [] => [] | c :: r => pl c :: pll r end in
+  match a with
+  | SCall n => if keep n then [a] else []
+  | SReturn | SBreak | SContinue => []
+  | SIf _ t e => match pl t, pl e with [], [] => [] | t', e' => [SIf "" t' e'] end
+  | SDefer x => match pl x with [] => [] | x' => [SDefer x'] end
+  | SFor x => match pl x with [] => [] | x' => [SFor x'] end
+  | SFunc x => match pl x with [] => [] | x' => [SFunc x'] end
+  | SGo x => [SGo (pl x)]
+  | SSelect d cs => [SSelect d (pll cs)]
+  | SSwitch cs => if forallb (fun c => match c with [] => true | _ => false end) (pll cs) then [] else [SSwitch (pll cs)]
+  | SOnce o x => [SOnce o (pl x)]
+  | o => [o]
+  end.
+Definition proj (keep : string -> bool) (x : skel) : skel := flat_map (projop keep) x.
+
+Definition keep_calls (n : string) : bool :=
+  mem n ["handle"; "sendSyncFinishedEvent"; "asyncSyncAdChain"; "doClose"; "syncEntries"].
+
+Definition same_proj (x y : skel) : bool := skel_eqb (proj keep_calls x) y.
+
+(* --- compared in full --- *)
 Definition expected_distributeEvents : skel :=
   [SFor [SSelect false
            [[SRecv "s.inEvents";
              SIf "" [SFor [SClose "ch"]; SReturn] [];
+             SCall "verifYield";
              SFor [SSend "ch"]];
-            [SRecv "s.addEventChan"];
+            [SRecv "s.addEventChan"; SCall "verifYield"];
             [SRecv "s.rmEventChan";
-             SFor [SIf "" [SClose "ch"; SBreak] []]]]]].
+             SFor [SIf "" [SClose "ch"; SBreak] []];
+             SCall "verifYield"]]]].
 
 (* the code as found: registration has no shutdown alternative *)
 Definition expected_OnSyncFinished_v0 : skel :=
-  [SSend "s.addEventChan";
+  [SCall "verifYield";
+   SSend "s.addEventChan";
    SFunc [SIf "" [SReturn] [];
+          SCall "verifYield";
           SSelect false [[SSend "s.rmEventChan"]; [SRecv "s.closing"]]];
    SReturn].
 
-(* repaired (pending/C15-fix-onsyncfinished-after-close): LAddClosed *)
+(* repaired (pending/C15-fix-onsyncfinished-after-close): label LAddClosed *)
 Definition expected_OnSyncFinished : skel :=
-  [SSelect false [[SSend "s.addEventChan"]; [SRecv "s.closing"; SCall "Close"; SReturn]];
+  [SCall "verifYield";
+   SSelect false [[SSend "s.addEventChan"]; [SRecv "s.closing"; SCall "Close"; SReturn]];
    SFunc [SIf "" [SReturn] [];
+          SCall "verifYield";
           SSelect false [[SSend "s.rmEventChan"]; [SRecv "s.closing"]]];
    SReturn].
 
 Definition expected_sendSyncFinishedEvent : skel :=
-  [SCall "setLatestSync"; SSend "h.subscriber.inEvents"].
+  [SCall "setLatestSync"; SCall "verifYield"; SSend "h.subscriber.inEvents"; SCall "verifYield"].
 
-Definition expected_asyncSyncAdChain : skel :=
-  [SIf "" [SReturn] [];
-   SAtomic "Swap" "h.pendingMsg";
-   SCall "GetLatestSync";
-   SIf "" [SIf "" [SReturn] []] [SIf "" [SCall "recursionLimit"] []];
-   SCall "makeSyncer";
-   SIf "" [SReturn] [];
-   SCall "ExploreRecursiveWithStopNode";
-   SCall "handle";
-   SIf "" [SSend "h.subscriber.inEvents"; SReturn] [];
-   SCall "sendSyncFinishedEvent"].
+Definition expected_doClose_v0 : skel :=
+  [SClose "s.closing"; SCall "verifYield";
+   SLock "s.expSyncMutex"; SUnlock "s.expSyncMutex"; SCall "verifYield";
+   SWgWait "s.expSyncWG"; SCall "verifYield";
+   SIf "" [SCall "Close"; SRecv "s.watchDone"] []; SCall "verifYield";
+   SWgWait "s.asyncWG"; SCall "verifYield";
+   SClose "s.inEvents"; SCall "verifYield";
+   SCall "Close";
+   SReturn].
 
-Definition expected_SyncAdChain : skel :=
+(* --- compared after projection --- *)
+Definition expected_SyncAdChain_v0 : skel :=
   [SLock "s.expSyncMutex";
-   SIf "" [SUnlock "s.expSyncMutex"; SReturn] [];
+   SIf "" [SUnlock "s.expSyncMutex"] [];
    SWgAdd "s.expSyncWG";
    SUnlock "s.expSyncMutex";
    SDefer [SWgDone "s.expSyncWG"];
-   SCall "getSyncOpts";
-   SCall "removeIDFromAddrs";
-   SIf "" [SReturn] [];
-   SCall "getOrCreateHandler";
-   SCall "makeSyncer";
-   SIf "" [SReturn] [];
-   SIf "" [SCall "recursionLimit"] [];
-   SIf "" [] [SIf "" [] [SCall "GetLatestSync"]];
-   SIf "" [SIf "" [SReturn] []; SIf "" [SReturn] []] [];
-   SIf "" [SIf "" [SReturn] []] [SIf "" [SCall "recursionLimit"] []];
-   SIf "" [SReturn] [];
-   SCall "ExploreRecursiveWithStopNode";
    SCall "handle";
-   SIf "" [SReturn] [];
-   SIf "" [SCall "sendSyncFinishedEvent"] [];
-   SReturn].
+   SIf "" [SCall "sendSyncFinishedEvent"] []].
+
+Definition expected_SyncAdChain : skel :=
+  [SLock "s.expSyncMutex";
+   SIf "" [SUnlock "s.expSyncMutex"] [];
+   SWgAdd "s.expSyncWG";
+   SUnlock "s.expSyncMutex";
+   SDefer [SWgDone "s.expSyncWG"];
+   SLock "hnd.syncMutex";
+   SDeferUnlock "hnd.syncMutex";
+   SCall "handle";
+   SIf "" [SCall "sendSyncFinishedEvent"] []].
+
+Definition expected_asyncSyncAdChain_v0 : skel :=
+  [SAtomic "Swap" "h.pendingMsg";
+   SCall "handle";
+   SIf "" [SSend "h.subscriber.inEvents"] [];
+   SCall "sendSyncFinishedEvent"].
+
+Definition expected_asyncSyncAdChain : skel :=
+  [SAtomic "Swap" "h.pendingMsg";
+   SLock "h.syncMutex";
+   SDeferUnlock "h.syncMutex";
+   SCall "handle";
+   SIf "" [SSend "h.subscriber.inEvents"] [];
+   SCall "sendSyncFinishedEvent"].
+
+Definition expected_handle_v0 : skel :=
+  [SLock "h.syncMutex";
+   SLock "h.subscriber.scopedBlockHookMutex"; SUnlock "h.subscriber.scopedBlockHookMutex";
+   SDefer [SLock "h.subscriber.scopedBlockHookMutex"; SUnlock "h.subscriber.scopedBlockHookMutex";
+           SUnlock "h.syncMutex"]].
+
+Definition expected_handle : skel :=
+  [SLock "h.subscriber.scopedBlockHookMutex"; SUnlock "h.subscriber.scopedBlockHookMutex";
+   SDefer [SLock "h.subscriber.scopedBlockHookMutex"; SUnlock "h.subscriber.scopedBlockHookMutex"]].
 
 Definition expected_watch : skel :=
   [SDefer [SClose "s.watchDone"];
    SDefer [SCancel "cancel"];
-   SFor [SIf "" [SBreak] [];
-         SCall "getOrCreateHandler";
-         SAtomic "Swap" "hnd.pendingMsg";
-         SIf "" [SContinue] [];
+   SFor [SAtomic "Swap" "hnd.pendingMsg";
          SWgAdd "s.asyncWG";
          SGo [SLock "hnd.asyncMutex";
               SDeferUnlock "hnd.asyncMutex";
@@ -620,52 +698,75 @@ Definition expected_watch : skel :=
               SCall "asyncSyncAdChain";
               SWgDone "s.asyncWG"]]].
 
-Definition expected_doClose : skel :=
-  [SClose "s.closing";
-   SLock "s.expSyncMutex";
-   SUnlock "s.expSyncMutex";
-   SWgWait "s.expSyncWG";
-   SIf "" [SCall "Close"; SRecv "s.watchDone"] [];
-   SWgWait "s.asyncWG";
-   SClose "s.inEvents";
-   SCall "Close";
-   SReturn].
+Definition full_of (gen : list (string * skel)) (n : string) (e : skel) : bool :=
+  skel_same_shape (lookup_or_nil n gen) e.
+Definition proj_of (gen : list (string * skel)) (n : string) (e : skel) : bool :=
+  same_proj (lookup_or_nil n gen) e.
 
-(* handle: only its lock structure matters here: syncMutex taken first, released by the
-   deferred function on every path *)
-Definition handle_lock_shape (h : skel) : bool :=
-  match h with
-  | SLock "h.syncMutex" :: _ :: _ :: SDefer d :: _ =>
-    match rev d with SUnlock "h.syncMutex" :: _ => true | _ => false end
-  | _ => false
-  end.
+(* what every variant of the sync layer needs *)
+Definition tie_common (gen : list (string * skel)) : bool :=
+  full_of gen "Subscriber.distributeEvents" expected_distributeEvents &&
+  full_of gen "handler.sendSyncFinishedEvent" expected_sendSyncFinishedEvent &&
+  (full_of gen "Subscriber.OnSyncFinished" expected_OnSyncFinished_v0 ||
+   full_of gen "Subscriber.OnSyncFinished" expected_OnSyncFinished) &&
+  proj_of gen "Subscriber.watch" expected_watch.
 
-Definition expected : list (string * skel) :=
-  [("Subscriber.distributeEvents", expected_distributeEvents);
-   ("handler.sendSyncFinishedEvent", expected_sendSyncFinishedEvent);
-   ("handler.asyncSyncAdChain", expected_asyncSyncAdChain);
-   ("Subscriber.SyncAdChain", expected_SyncAdChain);
-   ("Subscriber.watch", expected_watch);
-   ("Subscriber.doClose", expected_doClose)].
+(* the code as found (stepf false) *)
+Definition tie_ok_v0 (gen : list (string * skel)) : bool :=
+  tie_common gen &&
+  proj_of gen "Subscriber.SyncAdChain" expected_SyncAdChain_v0 &&
+  proj_of gen "handler.asyncSyncAdChain" expected_asyncSyncAdChain_v0 &&
+  proj_of gen "handler.handle" expected_handle_v0.
 
+(* with the event sent inside the per-publisher sync lock (stepf true) *)
 Definition tie_ok (gen : list (string * skel)) : bool :=
-  forallb (fun e => skel_same_shape (lookup_or_nil (fst e) gen) (snd e)) expected &&
-  (skel_same_shape (lookup_or_nil "Subscriber.OnSyncFinished" gen) expected_OnSyncFinished_v0 ||
-   skel_same_shape (lookup_or_nil "Subscriber.OnSyncFinished" gen) expected_OnSyncFinished) &&
-  handle_lock_shape (lookup_or_nil "handler.handle" gen).
+  tie_common gen &&
+  proj_of gen "Subscriber.SyncAdChain" expected_SyncAdChain &&
+  proj_of gen "handler.asyncSyncAdChain" expected_asyncSyncAdChain &&
+  proj_of gen "handler.handle" expected_handle.
 
-(* which callees may block / take which mutex, for the no-blocking-under-expSyncMutex analysis *)
+(* keep only the lock operations on mutex m *)
+Fixpoint only_mutex_op (m : string) (a : sop) {struct a} : list sop :=
+  let fix pl (x : list sop) {struct x} : list sop :=
+    match x with [] => [] | b :: r => (only_mutex_op m b ++ pl r)%list end in
+  let fix pll (x : list (list sop)) {struct x} : list (list sop) :=
+    match x with [] => [] | c :: r => pl c :: pll r end in
+  match a with
+  | SLock n | SUnlock n | SDeferUnlock n => if String.eqb n m then [a] else []
+  | SIf c t e => [SIf c (pl t) (pl e)]
+  | SDefer x => [SDefer (pl x)]
+  | SFor x => [SFor (pl x)]
+  | SFunc x => [SFunc (pl x)]
+  | SGo x => [SGo (pl x)]
+  | SSelect d cs => [SSelect d (pll cs)]
+  | SSwitch cs => [SSwitch (pll cs)]
+  | SOnce o x => [SOnce o (pl x)]
+  | o => [o]
+  end.
+Definition only_mutex (m : string) (x : skel) : skel := flat_map (only_mutex_op m) x.
+
+(* which callees may block / take which mutex *)
 Definition sub_env (name : string) : option callee :=
-  if String.eqb name "handle" then Some {| c_blocks := true; c_locks := ["h.syncMutex"] |}
+  if String.eqb name "handle" then Some {| c_blocks := true; c_locks := [] |}
   else if String.eqb name "sendSyncFinishedEvent" then Some {| c_blocks := true; c_locks := [] |}
-  else if String.eqb name "asyncSyncAdChain" then Some {| c_blocks := true; c_locks := ["h.syncMutex"] |}
+  else if String.eqb name "asyncSyncAdChain" then Some {| c_blocks := true; c_locks := [] |}
   else if String.eqb name "syncEntries" then Some {| c_blocks := true; c_locks := ["s.expSyncMutex"] |}
+  else if String.eqb name "SyncAdChain" then Some {| c_blocks := true; c_locks := ["s.expSyncMutex"] |}
   else if String.eqb name "doClose" then Some {| c_blocks := true; c_locks := ["s.expSyncMutex"] |}
   else if String.eqb name "Close" then Some {| c_blocks := true; c_locks := [] |}
-  else if String.eqb name "getOrCreateHandler" then Some {| c_blocks := false; c_locks := ["s.handlersMutex"] |}
+  else if String.eqb name "GetHead" then Some {| c_blocks := true; c_locks := [] |}
   else None.
 
-(* every return path of the gate functions releases expSyncMutex, and nothing blocks under it *)
+Definition gate_funcs : list string :=
+  ["Subscriber.SyncAdChain"; "Subscriber.syncEntries"; "Subscriber.doClose"].
+
+(* every return path of the functions that use the explicit-sync gate releases
+   expSyncMutex, and nothing blocks while it is held *)
 Definition gate_ok (gen : list (string * skel)) : bool :=
-  forallb (fun n => balanced_nonblocking sub_env 400 (lookup_or_nil n gen))
-          ["Subscriber.SyncAdChain"; "Subscriber.syncEntries"; "Subscriber.doClose"].
+  forallb (fun n => balanced_nonblocking sub_env 400 (only_mutex "s.expSyncMutex" (lookup_or_nil n gen))) gate_funcs.
+
+(* every return path of the sync functions releases every mutex it took *)
+Definition locks_balanced (gen : list (string * skel)) : bool :=
+  forallb (fun n => balanced 400 (lookup_or_nil n gen))
+          ["Subscriber.SyncAdChain"; "Subscriber.syncEntries"; "Subscriber.doClose";
+           "handler.asyncSyncAdChain"; "handler.sendSyncFinishedEvent"; "Subscriber.OnSyncFinished"].
